@@ -211,6 +211,7 @@ func main() {
 		atomic.AddInt64(&transitions, 1)
 		rec([]add{it.first})
 	})
+	bigPhase(wch, nw)
 	hugeSplit()
 	run.AddStates(int(states))
 	run.AddTransitions(int(transitions))
